@@ -5,7 +5,7 @@ cd "$(dirname "$0")"
 DIR="$(cd "${1:?dir}" && pwd)"
 export GOFLAGS=-mod=mod GOPROXY=off GOSUMDB=off GOTOOLCHAIN=local
 WT=$(mktemp -d /tmp/anndb-matrix.XXXXXX); rmdir "$WT"
-git -C /repo worktree add -q --detach "$WT" HEAD || exit 2
+git -C /repo worktree add -q --detach "$WT" ${BASE:-HEAD} || exit 2
 trap 'git -C /repo worktree remove --force "$WT" >/dev/null 2>&1; rm -rf "$WT" /tmp/anndb-matrix-out.*' EXIT
 PROPS=$(${BIN:-/verif/bin/anndbcheck} -list)
 for f in "$DIR"/*.diff; do
